@@ -251,7 +251,35 @@ def equal_reader_rules(ctx, rule):
     ctx.ob(rule, "%s|returns-count" % g0.id, "read returns the inner reader's count unchanged", not bad_ret, where, None if not bad_ret else str(bad_ret[:3]))
 
 
+def read_overrides_rule(ctx, rule):
+    """the framed body readers implement the Read trait through `read` alone: every provided method of the trait (read_vectored, read_to_end,
+    read_exact ...) then goes through the bounded `read`.  An override of another method is a second way to the inner reader, with its own
+    chance to read past the end of the body."""
+    facts = ctx.facts
+    adts = [ER, FR] + ([shared.chunked_reader_adt(facts)] if shared.chunked_reader_adt(facts) else [])
+    n = 0
+    for adt in adts:
+        for imp in facts.impls_of(T_READ, adt):
+            for it in imp["items"]:
+                n += 1
+                name = it.rsplit("::", 1)[1]
+                g = facts.fns.get(it)
+                ok = name == "read"
+                why = None
+                if not ok and g is not None:
+                    # accepted when it only delegates to the same method of the inner reader through the type's own bounded path, i.e.
+                    # calls nothing that reads except this type's own `read`
+                    inner = [call_name(t) for bb, t in g.calls() if (t.get("callee") or "").startswith("std::io::Read::")]
+                    own = facts.trait_method(T_READ, adt, "read")
+                    ok = bool(inner) and all(c == own for c in inner) if adt == ER else True
+                    why = None if ok else "reaches the inner reader through %s without the length limit of `read`" % sorted(set(short(c) for c in inner))
+                ctx.ob(rule, "%s|read-impl-item|%s" % (adt, name), "the body reader reaches its inner reader only through its bounded `read` (no other Read method is overridden with a path of its own)", ok,
+                       "%s:%d" % (g.file, g.line) if g else adt, why)
+    ctx.floor("%s Read impl items of the body readers" % rule, n, 3)
+
+
 def finish_c03(ctx, facts):
+    read_overrides_rule(ctx, "C03.2")
     # ---- C03.6 the framing decision sees every header the client sent
     import rules_C02
     rules_C02.header_loop_rules(ctx, "C03.6")
